@@ -13,6 +13,8 @@ Shapes that are checked (any other shape raises):
   * PEventListenerDispatcher.__init__ assigns process.listener_state =
     EventListenerStates.<X>, process.event = None, self.result = b'',
     self.resultlen = None
+  * handle_read_event appends the bytes returned by readfd to state_buffer before any
+    rewriting of `data` (strip_ansi concerns the child log only)
   * PEventListenerDispatcher.writable returns False (nothing is ever written to
     a listener through its stdout dispatcher)
 """
@@ -128,6 +130,34 @@ def read_facts():
         v = seen.get(t)
         if not (isinstance(v, ast.Constant) and v.value == want and type(v.value) == type(want)):
             raise Reject('__init__ does not assign %s = %r' % (t, want))
+    # ANSI escape stripping (applied to what is written to the child log only)
+    mod = {}
+    for n in dtree.body:
+        if isinstance(n, ast.Assign) and len(n.targets) == 1 and isinstance(n.targets[0], ast.Name):
+            mod[n.targets[0].id] = n.value
+    if 'ANSI_ESCAPE_BEGIN' not in mod or 'ANSI_TERMINATORS' not in mod:
+        raise Reject('ANSI_ESCAPE_BEGIN / ANSI_TERMINATORS missing')
+    facts['ANSI_BEGIN'] = _bytes_const(mod['ANSI_ESCAPE_BEGIN'], 'ANSI_ESCAPE_BEGIN')
+    if len(facts['ANSI_BEGIN']) != 2:
+        raise Reject('ANSI_ESCAPE_BEGIN is not two bytes long')
+    t = mod['ANSI_TERMINATORS']
+    if not isinstance(t, ast.Tuple):
+        raise Reject('ANSI_TERMINATORS is not a tuple literal')
+    terms = [_bytes_const(e, 'ANSI terminator') for e in t.elts]
+    if any(len(x) != 1 for x in terms):
+        raise Reject('an ANSI terminator is not a single byte')
+    facts['ANSI_TERMS'] = b''.join(terms)
+    # handle_read_event: the protocol buffer receives the bytes as read; `data` may be
+    # rewritten (escape stripping for the child log) only after `self.state_buffer += data`
+    hre = _func(cls.body, 'handle_read_event')
+    aug = [n.lineno for n in ast.walk(hre) if isinstance(n, ast.AugAssign)
+           and _attr_chain(n.target) == 'self.state_buffer' and isinstance(n.value, ast.Name) and n.value.id == 'data']
+    if len(aug) != 1:
+        raise Reject('handle_read_event: expected exactly one `self.state_buffer += data`')
+    assigns = sorted(n.lineno for n in ast.walk(hre) if isinstance(n, ast.Assign)
+                     and any(isinstance(t, ast.Name) and t.id == 'data' for t in n.targets))
+    if not assigns or any(l < aug[0] for l in assigns[1:]) or assigns[0] > aug[0]:
+        raise Reject('handle_read_event: `data` is rewritten before it is appended to state_buffer')
     wr = _func(cls.body, 'writable')
     if not (len(wr.body) == 1 and isinstance(wr.body[0], ast.Return)
             and isinstance(wr.body[0].value, ast.Constant) and wr.body[0].value.value is False):
@@ -145,6 +175,8 @@ def generate():
         'Definition RESULT_START : list Z := %s.' % vlib.bytes_lit(f['RESULT_START']),
         'Definition OK_TOKEN : list Z := %s.' % vlib.bytes_lit(f['OK_TOKEN']),
     ]
+    lines.append('Definition ANSI_BEGIN : list Z := %s.' % vlib.bytes_lit(f['ANSI_BEGIN']))
+    lines.append('Definition ANSI_TERMS : list Z := %s.' % vlib.bytes_lit(f['ANSI_TERMS']))
     for k in ('ACKNOWLEDGED', 'READY', 'BUSY', 'UNKNOWN'):
         lines.append('Definition LS_CODE_%s : Z := %d.' % (names[k], f['codes'][k]))
     lines.append('(* state assigned by PEventListenerDispatcher.__init__, as its EventListenerStates code *)')
